@@ -188,6 +188,8 @@ class Evaluator:
                 self.arrays[r[1]][r[2]] = nv
             else:
                 self.regs[r[1]] = nv
+        elif k == "aborted_loop":
+            pass      # the body raised before it issued anything and the application caught it: no effect
         elif k == "flush":
             pass
         else:
@@ -426,6 +428,7 @@ class HostGen:
         if top:
             add("array", 2)
             add("flush", 2)
+        add("aborted-loop", 1)
         if depth < self.max_depth:
             if self.fut_operand() is not None:
                 add("if", 5)
@@ -441,6 +444,9 @@ class HostGen:
             return []
         kind = kinds[ch.weighted(w, "stmt")]
         self.kinds.add(kind)
+        if kind == "aborted-loop":
+            # a loop context whose body raises at once (before issuing anything); the application catches the error
+            return [("aborted_loop", 1 + ch.draw(3, "abn"))]
         if kind == "qblock":
             return self.qubit_block()
         if kind == "qubit":
